@@ -51,6 +51,9 @@ const zzTaskDone = 1000 // pseudo event: a task of the scope called DoneTask
 var zzCloseEvents = []int{app.BeforeCloseEvent, app.BeforeCommitEvent, app.CommitEvent, app.AfterCommitEvent,
 	app.BeforeRollbackEvent, app.RollbackEvent, app.AfterRollbackEvent, app.AfterCloseEvent}
 
+// zzChildRef: the child scope (set when it exists) for the root's listeners.
+var zzChildRef *app.Scope
+
 // zzListen registers logging listeners for all close events of scp; the
 // listener for (failWho, failEv) returns an error.
 func zzListen(scp app.Scope, who string, log *zzLog, failWho string, failEv int) {
@@ -73,6 +76,11 @@ func zzListen(scp app.Scope, who string, log *zzLog, failWho string, failEv int)
 				if who == failWho && ev == failEv {
 					return errors.New("listener failed")
 				}
+			} else if ok && who == "root" && failWho == "root-for-child" && ev == failEv && zzChildRef != nil && s == *zzChildRef {
+				// the ROOT's listener fails for an event of the CHILD (events of a
+				// child are delivered to the parent's listeners too)
+				log.add("child-via-root", ev)
+				return errors.New("parent listener failed for the child's event")
 			}
 			return nil
 		})
@@ -117,8 +125,8 @@ func ZZVerifC11Close() {
 	if failEvIdx < len(candidates) {
 		failEv = candidates[failEvIdx]
 		failWho = "root"
-		if shape != 0 && nd.Choose("fail-on-child", 2) == 1 {
-			failWho = "child"
+		if shape != 0 {
+			failWho = []string{"root", "child", "root-for-child"}[nd.Choose("fail-on-child", 3)]
 		}
 	}
 	root := New(Params{Name: "root"})
@@ -130,6 +138,7 @@ func ZZVerifC11Close() {
 			cp.ContextScope = contextscope.NewIsolated(root.BaseContextScope())
 		}
 		child = NewChild(root, cp)
+		zzChildRef = &child
 		zzListen(child, "child", log, failWho, failEv)
 	}
 	action := nd.IntRange("task-action", 0, 3) // 0 nothing, 1 append error, 2 kill, 3 stop (symbolic)
@@ -175,13 +184,17 @@ func ZZVerifC11Close() {
 
 	rootHasErr := len(root.Errors()) > 0
 	zzCheckProtocol(log, "root", "C11/root")
-	if child != nil {
+	// (when a listener of the PARENT fails for an event of the child, the
+	// delivery of that event stops there and the child's own listeners - which
+	// write this log - do not see it: the child's log is then not complete)
+	childLogComplete := failWho != "root-for-child"
+	if child != nil && childLogComplete {
 		zzCheckProtocol(log, "child", "C11/child")
 	}
 	// Close waited for the task and for the child
 	nd.Assert(log.index("root", zzTaskDone) < log.index("root", app.BeforeCommitEvent) || log.count("root", app.BeforeCommitEvent) == 0, "C11/root/commit-after-task-done")
 	nd.Assert(log.index("root", zzTaskDone) < log.index("root", app.BeforeRollbackEvent) || log.count("root", app.BeforeRollbackEvent) == 0, "C11/root/rollback-after-task-done")
-	if child != nil {
+	if child != nil && childLogComplete {
 		ca := log.index("child", app.AfterCloseEvent)
 		nd.Assert(ca >= 0, "C11/child/closed")
 		rb := log.index("root", app.BeforeCommitEvent)
@@ -191,6 +204,10 @@ func ZZVerifC11Close() {
 		nd.Assert(ca < rb, "C11/root/waits-for-child-close")
 	}
 	nd.Assert((rootErr != nil) == rootHasErr, "C11/root/close-error-iff-scope-error")
+	if child != nil && failWho == "root-for-child" && log.count("child-via-root", failEv) >= 1 {
+		// the child fired the event whose (parent-side) listener failed
+		nd.Assert(childErr != nil, "C11/child/parent-listener-error-reported-by-close")
+	}
 	// shared vs isolated
 	if child != nil && onChild && (action == 1 || action == 2) {
 		if shape == 1 {
